@@ -1099,7 +1099,8 @@ class TexCmd(TexExpr):
         return "TexCmd('%s', %s)" % (self.name, repr(self.args))
 
     def _supports_contents(self):
-        return self.name == 'item'
+        # an item, or a (renamed) command that already holds contents
+        return self.name == 'item' or bool(self._contents)
 
     def _assert_supports_contents(self):
         if not self._supports_contents():
